@@ -22,8 +22,9 @@ type c15Item struct {
 }
 
 type c15Payload struct {
-	Src   string `json:"src"`
-	Plain string `json:"plain"`
+	Src     string `json:"src"`
+	Plain   string `json:"plain"`
+	Rebuilt bool   `json:"rebuilt_tokens,omitempty"`
 }
 
 // c15Lines lays a token list out one statement per line and returns the text pieces between which
@@ -349,7 +350,7 @@ func c15Unicode(c *core.Ctx) {
 					k, d = c15Neutral(src)
 				}
 				if k != "" && c.ShrinkOK("u"+k) {
-					pl, _ := json.Marshal(c15Payload{src, plain})
+					pl, _ := json.Marshal(c15Payload{src, plain, pbRebuildTokens})
 					c.Violate(core.Violation{Kind: k, Config: fmt.Sprintf("comment text with U+%04X", r), Case: fmt.Sprintf("%q", src), Detail: d, Payload: pl, Size: 30, Sig: k + "|" + fmt.Sprintf("U+%04X", r)})
 				}
 			}
@@ -358,6 +359,7 @@ func c15Unicode(c *core.Ctx) {
 }
 
 func c15Run(c *core.Ctx) {
+	processWarmup(c)
 	c15Unicode(c)
 	decos := c15Decorations(c.Thorough())
 	pairDecos := [][]c15Item{decos[0], decos[1], {{Kind: 'B', N: 1}}, {{Kind: 'C', Text: " c1"}, {Kind: 'B', N: 1}}, {{Kind: 'T', Text: " `tick"}}}
@@ -365,7 +367,7 @@ func c15Run(c *core.Ctx) {
 		if k == "" || !c.ShrinkOK(k) {
 			return
 		}
-		pl, _ := json.Marshal(c15Payload{src, plain})
+		pl, _ := json.Marshal(c15Payload{src, plain, pbRebuildTokens})
 		// signature: failure kind + boundary kind + decoration shape (the smallest program of the class is kept)
 		c.Violate(core.Violation{Kind: k, Config: class, Case: fmt.Sprintf("%q", src), Detail: d, Payload: pl, Size: size, Sig: k + "|" + class})
 	}
@@ -477,6 +479,24 @@ func c15Run(c *core.Ctx) {
 				}
 			}
 		}
+		// plugin-built tokens: the same skeleton through builders whose token interceptor rebuilds identifier and
+		// keyword tokens with NewTokenAt after next() (5 decorations at every boundary)
+		pbRebuildTokens = true
+		for s := 0; s < nslots; s++ {
+			for _, d := range pairDecos {
+				if s == 0 && d[0].Kind == 'T' {
+					continue
+				}
+				src := c15Render(pieces, map[int][]c15Item{s: d})
+				c.Inc("decorated_programs")
+				c.Inc("rebuilt_token_programs")
+				k, dd := c15Check(src, plain, sibOrd)
+				if k != "" {
+					report("plugin-token-"+k, "with a token interceptor that rebuilds identifier and keyword tokens through NewTokenAt after next(): "+dd, src, plain, len(toks)+len(d)+2, slotKind(s)+":"+shape(d)+" (rebuilt tokens)")
+				}
+			}
+		}
+		pbRebuildTokens = false
 		// line-sharing layouts: each single inner boundary, and all of them, without a line break
 		if nslots > 2 {
 			var joinSets []map[int]bool
@@ -549,6 +569,8 @@ func c15Replay(pl json.RawMessage) (string, []core.Violation) {
 	var p c15Payload
 	json.Unmarshal(pl, &p)
 	out := fmt.Sprintf("decorated source %q", p.Src)
+	pbRebuildTokens = p.Rebuilt
+	defer func() { pbRebuildTokens = false }()
 	// sibling ordinals cannot be rebuilt from text alone: use every ordinal whose gap differs only if both
 	// texts agree on being statement starts; replay checks comments + compact + neutrality + blank lines at
 	// every token that starts a line in the plain layout
@@ -581,7 +603,7 @@ func c15Replay(pl json.RawMessage) (string, []core.Violation) {
 func init() {
 	core.Register(&core.PropSpec{
 		ID: "C15", Level: "exploration",
-		Rule:     "skeleton programs (statement families; nesting chains of depth <= 2, 3 thorough, over blocks / if-else-loop blocks / function declarations / function expressions in every expression position) laid out one statement per line; at EVERY statement boundary (before each statement of a list, before each closing brace of a list, before the end of input) every decoration of the alphabet (own-line or trailing comment with each of 8 texts incl. code-like text, quotes, backtick, //, trailing spaces; blank-line runs 1 and 3; 13 mixed sequences of comments and blank lines), singly at every boundary and pairwise at every two boundaries for small skeletons. Oracle (independent tokenizer R-tok on source and output): the comment list of each pretty output (3 option sets) has the same texts (modulo trailing white space) in the same order, each in front of the same significant token (';' ignored); a blank line separates two sibling statements in the output iff it does in the source; compact output is byte-identical to the compact output of the comment-free program and contains no comment; replacing every comment text by a neutral one changes the pretty output only inside the comments. non-trivial = decorated programs containing at least one comment Added: comment texts with every code point of U+2000..U+203F except U+2028/U+2029 and one code point per UTF-8 length, own-line and trailing, at every boundary of a small skeleton; empty and blank-only comment texts. Line-sharing layouts (round 11): every skeleton again with each single inner boundary, and with all boundaries other than the decorated one, laid out as a blank instead of a line break (first statement on the line of its opening brace, closing brace on the line of the last statement, several statements on one line), 5 decorations at every boundary.",
+		Rule:     "skeleton programs (statement families; nesting chains of depth <= 2, 3 thorough, over blocks / if-else-loop blocks / function declarations / function expressions in every expression position) laid out one statement per line; at EVERY statement boundary (before each statement of a list, before each closing brace of a list, before the end of input) every decoration of the alphabet (own-line or trailing comment with each of 8 texts incl. code-like text, quotes, backtick, //, trailing spaces; blank-line runs 1 and 3; 13 mixed sequences of comments and blank lines), singly at every boundary and pairwise at every two boundaries for small skeletons. Oracle (independent tokenizer R-tok on source and output): the comment list of each pretty output (3 option sets) has the same texts (modulo trailing white space) in the same order, each in front of the same significant token (';' ignored); a blank line separates two sibling statements in the output iff it does in the source; compact output is byte-identical to the compact output of the comment-free program and contains no comment; replacing every comment text by a neutral one changes the pretty output only inside the comments. non-trivial = decorated programs containing at least one comment Added: comment texts with every code point of U+2000..U+203F except U+2028/U+2029 and one code point per UTF-8 length, own-line and trailing, at every boundary of a small skeleton; empty and blank-only comment texts. Line-sharing layouts (round 11): every skeleton again with each single inner boundary, and with all boundaries other than the decorated one, laid out as a blank instead of a line break (first statement on the line of its opening brace, closing brace on the line of the last statement, several statements on one line), 5 decorations at every boundary. Plugin-built tokens (round 12): every skeleton again (5 decorations at every boundary) through builders whose token interceptor rebuilds identifier and keyword tokens with NewTokenAt after next().",
 		Assume:   []string{"comments are compared modulo trailing white space", "blank-line preservation is required between sibling statements only (not after an opening or before a closing brace)", "multi-line literals are exercised by C06/C07, not here"},
 		QuickSec: 240, ThorSec: 1800, Run: c15Run, Replay: c15Replay,
 		Evals: "decorated_programs", Nontriv: "programs_with_comments",
